@@ -120,7 +120,8 @@ def C18(ck):
     ck.rule = ("read-side batteries (Validate + ten getters, twice) on every claims-set of the C01 enumeration with a deep "
                "reflection snapshot (unexported fields, nil vs empty) and both encodings taken before and after; the Read steps of "
                "TLC-simulated setter histories; decode (4 entry points) then overwrite the input buffer and re-read; "
-               "Evidence: see the evidence family (sign / decode / verify repeated, buffer overwritten); non-trivial = as C01")
+               "Evidence: TLC-simulated histories in which every Verify is repeated and deep-snapshotted and every decoded token "
+               "buffer is overwritten before the state is projected; non-trivial = as C01")
     ck.assumptions = TRUST
     ck.add_model(vlib.mc("MC_Claims", "MC_Claims_decoded.cfg"))
     dom = vlib.gen_export("Gen_Claims", "Gen_Claims.cfg", "domains")
@@ -132,6 +133,8 @@ def C18(ck):
         ck.run_and_judge(["claims-read", "-seed", ck.seed, "-tier", ck.tier, "-n", nr, "-in", dom, "-out", ck.path("cr")], "Trace_Claims")
     finally:
         _rm(dom, hist)
+    # the Evidence half: Verify repeated / snapshotted, decode then overwrite the token buffer
+    _ev_hist(ck, 200 if ck.tier == "quick" else 4000)
 
 
 def C04(ck):
